@@ -41,17 +41,19 @@ def metaName (paths : List Bytes) : Bytes := paths.getD (metaDepth paths) []
       if !ok { …bucketExists(indexKey(join(meta.Paths()))) … tx.cache[meta] = bkt }
     (the second line is the repair D44 (fixes/D44c11.patch): a bucket cached earlier and deleted since by this very
     transaction must not be handed out again) -/
+def Tx.fetchMiss (tx : Tx) (cache : AMap.T Nat Bucket) (m : Nat) (paths : List Bytes) :
+    Option Bucket × AMap.T Nat Bucket :=
+  match tx.fetchBucket paths (metaName paths) (metaDepth paths) with
+  | none => (none, AMap.erase cache m)
+  | some bkt => (some bkt, AMap.put cache m bkt)
+
 def Tx.fetchCached (tx : Tx) (cache : AMap.T Nat Bucket) (m : Nat) (paths : List Bytes) :
     Option Bucket × AMap.T Nat Bucket :=
-  let hit : Option Bucket := match AMap.get cache m with
-    | some bkt => if !tx.readOnly && (tx.b.get (indexKey bkt.path)).2 then none else some bkt
-    | none => none
-  match hit with
-  | some bkt => (some bkt, cache)
-  | none =>
-    match tx.fetchBucket paths (metaName paths) (metaDepth paths) with
-    | none => (none, AMap.erase cache m)
-    | some bkt => (some bkt, AMap.put cache m bkt)
+  match AMap.get cache m with
+  | none => tx.fetchMiss cache m paths
+  | some bkt =>
+    if !tx.readOnly && (tx.b.get (indexKey bkt.path)).2 then tx.fetchMiss cache m paths   -- evicted, looked up again
+    else (some bkt, cache)
 
 /-! ### data operations through a kept handle (paths relative to the handle) -/
 
@@ -161,9 +163,12 @@ structure SysX where
   rh : TxH := {}                          -- of the open read transaction
   dead : Option TxH := none               -- of the read transaction ended last (handles still held by the caller)
 
-def SysX.txOf (s : SysX) : Slot → Option Tx
-  | .w => s.base.w.map fun bt => { readOnly := false, db := s.base.db, b := bt }
-  | .r => s.base.reader.map fun snap => { readOnly := true, db := snap }
+/-- the transaction object of a slot, as `Sys.step` builds it for a data operation -/
+def Sys.txOf (s : Sys) : Slot → Option Tx
+  | .w => s.w.map fun bt => { readOnly := false, db := s.db, b := bt }
+  | .r => s.reader.map fun snap => { readOnly := true, db := snap }
+
+def SysX.txOf (s : SysX) (sl : Slot) : Option Tx := s.base.txOf sl
 
 def SysX.hOf (s : SysX) : Slot → TxH
   | .w => s.wh
